@@ -67,7 +67,7 @@ impl<'a> fmt::Display for Pieces<'a> {
 }
 
 pub fn sub(s: &str) -> String {
-    s.replace('~', "\u{e9}")
+    s.replace('~', "\u{e9}").replace('^', "\u{663}")
 }
 fn seq_str(v: &Value) -> Option<String> {
     let a = v.as_array()?;
